@@ -23,7 +23,7 @@ TRUSTED_BASE = L.TRUSTED_COMMON + [
 ]
 PROFILE = L.profile(without=['clear', 'rawupdate', 'rawdelete'],
                     weights={'get': 16, 'select': 10, 'byalt': 6, 'drop': 10, 'cull': 5, 'expire': 2, 'expireall': 1,
-                             'destroy': 5, 'pickle': 5, 'unpickle': 6}, p_fault=0.0, freqs=[2, 3, 5, 100])
+                             'destroy': 5, 'pickle': 5, 'unpickle': 6}, p_fault=0.25, fault_ops=('destroy',), freqs=[2, 3, 5, 100])
 
 
 def corpus():
@@ -40,6 +40,9 @@ def corpus():
          'ops': [['create', 0, [[1, 100]]], ['pickle', 0], ['cull', 0], ['drop', 0], ['unpickle', 0], ['unpickle', 0], ['get', 0, 1]]},
         # seeded once: the id must be coerced BEFORE the cache lookup (get('1') and get(1) are the same row)
         {'cfg': {'cache': True, 'freq': 100, 'frac': 2}, 'ops': [['create', 0, [[1, 100]]], ['get', 0, 1, 'str'], ['get', 0, 1]]},
+        # seeded once: a destroySelf whose DELETE fails must not have purged the identity map
+        {'cfg': {'cache': True, 'freq': 100, 'frac': 2}, 'ops': [['create', 0, [[1, 100]]], ['fault', 0, ['destroy', 0]], ['get', 0, 1]]},
+        {'cfg': {'cache': False, 'freq': 100, 'frac': 2}, 'ops': [['create', 0, [[1, 100]]], ['fault', 0, ['destroy', 0]], ['select', 0, None, None]]},
         # cull moves a held object to the weak cache; it must come back
         {'cfg': {'cache': True, 'freq': 2, 'frac': 1},
          'ops': [['create', 0, [[1, 100]]], ['create', 0, [[1, 101]]], ['cull', 0], ['get', 0, 1], ['get', 0, 2], ['select', 0, None, 0]]},
